@@ -246,7 +246,8 @@ def plan(tier):
                 'counts explicit or omitted-when-1; 4 header contexts; 5 '
                 'payloads incl. look-alikes; 14 separators/lead-ins; '
                 'ignore_garbage both ways; every single-point damage '
-                '(delete / replace by garbage, empty, header / truncate); '
+                '(delete / replace by garbage, empty, header / truncate / '
+                'header counts off by -1..+50); '
                 '(b) every list of <= %d lines over a 14-line alphabet. '
                 'Oracle: independent strict reference (tokenise, strict '
                 'counting, post-hoc geometry): equal dict for well-formed '
@@ -350,6 +351,26 @@ def run_unit(unit, tier):
                         for rline in repl:
                             one(base[:i] + [rline] + base[i + 1:], ig, True)
                             one(base[:i] + [rline] + base[i:], ig, True)
+                        # a header whose counts are off by a little / a lot
+                        # (a hand-edited patch), with garbage or a second
+                        # hunk after the hunk
+                        m = HDR.fullmatch(base[i])
+                        if m is None:
+                            continue
+                        co = int(m.group(2)) if m.group(2) is not None else 1
+                        cn = int(m.group(4)) if m.group(4) is not None else 1
+                        for do, dn in ((1, 0), (0, 1), (1, 1), (2, 2), (50, 50),
+                                       (-1, 0), (0, -1), (-1, -1), (3, 0)):
+                            if co + do < 0 or cn + dn < 0:
+                                continue
+                            h2 = b'@@ -%s,%d +%s,%d @@' % (
+                                m.group(1), co + do, m.group(3), cn + dn)
+                            if m.group(5) is not None:
+                                h2 += b' ' + m.group(5)
+                            for tail in ([], [b'garbage', b'more'],
+                                         [b' c', b'garbage', b' c', b' c']):
+                                one(base[:i] + [h2] + base[i + 1:] + tail,
+                                    ig, True)
         acc.sample({'damage_of_bodies': b2[:3]}, 1)
     elif unit[0] == 'diff':
         _, a, b, DL = unit
